@@ -205,6 +205,8 @@ class Exec:
     # --- function lookup
     def find(self, callee):
         c = re.sub(r"'\w+,?\s*", '', callee)
+        exact = [f for f in self.fns if f.name == c]
+        if len(exact) == 1: return exact[0]
         # trait call on a concrete type: <Ty as Trait>::m
         m = re.match(r'<(.*) as ([\w:]+)(<.*>)?>::(\w+)(?:::<.*>)?$', c)
         cands = []
